@@ -286,7 +286,11 @@ func runC04(env *lib.Env, rep *lib.Report) {
 	alpha := alphaOpt{Tables: []string{"t1", "t2"}, Inserts: []int{1, 9}, Updates: true, Deletes: true}
 	var cfgs []histCfg
 	for _, seed := range seeds {
-		cfgs = append(cfgs, histCfg{Name: "real/" + seed, Seed: seed, Alpha: alpha, Depth: d, TickChoice: true})
+		a := alpha
+		if seed == "t1x8" {
+			a.FailingInsert = true // refused statements before the flush (what they stamp or use up is not in the log)
+		}
+		cfgs = append(cfgs, histCfg{Name: "real/" + seed, Seed: seed, Alpha: a, Depth: d, TickChoice: true})
 	}
 	cfgs = append(cfgs, histCfg{Name: "leaf3-int3/t1x8", Opt: worldOpt{Leaf: 3, Internal: 3}, Seed: "t1x8", Alpha: alpha, Depth: d, TickChoice: true})
 	// two statements before the flush, inserts only, from the two smallest seeds
